@@ -45,6 +45,10 @@ def _starmapstar(args):
     return list(itertools.starmap(args[0], args[1]))
 
 
+class InjectedWorkerFailure(OSError):
+    """fault injected by the simulated pool: the task died in its worker; shipped back like any worker exception"""
+
+
 class _Result:
     def __init__(self, value=None, error=None):
         self._value = value
@@ -170,6 +174,10 @@ class SimPool:
         elif mode == 3:
             wd.faults["sched.slow_worker"] += 1
         t_parent = wd.now
+        fail_at, fail_after = None, False
+        if wd.task_fail_one_in and len(tasks) > 1 and wd.choose("fault.task_fail", wd.task_fail_one_in) == 0:
+            fail_at = wd.choose("fault.task_fail_index", len(tasks))
+            fail_after = bool(wd.choose("fault.task_fail_after_work", 2))
         for ti, blob in enumerate(tasks):
             if mode == 0:
                 w = ti % W
@@ -190,7 +198,15 @@ class SimPool:
             try:
                 fn, args = _loads(blob)
                 try:
+                    if ti == fail_at and not fail_after:
+                        wd.faults["pool.task_failed"] += 1
+                        wd.log("task.fail", self.index, ti, "before-work")
+                        raise InjectedWorkerFailure(f"injected: task {ti} of pool {self.index} failed in its worker")
                     value = fn(args)
+                    if ti == fail_at:
+                        wd.faults["pool.task_failed"] += 1
+                        wd.log("task.fail", self.index, ti, "after-work")
+                        raise InjectedWorkerFailure(f"injected: task {ti} of pool {self.index} failed in its worker (result lost)")
                     ok = True
                 except HarnessError:
                     raise
